@@ -245,6 +245,10 @@ pub fn search_positions(tier: Tier) -> Vec<Position> {
             v.push(p);
         }
     }
+    // every legal move is answered by a capture that gives check and can only be met by a quiet
+    // king move (the capture extension at the horizon then looks at an empty capture list of a side
+    // that is in check)
+    v.extend(capture_check_reply_family(tier.pick(7, 1)));
     // one ply before the end of a lost game: every legal move allows a mate in one
     {
         let mut lost = vec![];
@@ -276,6 +280,72 @@ pub fn search_positions(tier: Tier) -> Vec<Position> {
     let mut seen = std::collections::BTreeSet::new();
     v.retain(|p| seen.insert(p.to_fen()) && parse_board(&p.to_fen()).is_ok());
     v
+}
+
+/// White king boxed in a corner by its own pawn, a white rook, a black queen on the first rank
+/// giving check with a black rook behind it, black king far away: kept when the reference says
+/// that EVERY legal move of the root is a capture after which some reply is a capture giving check
+/// that the checked side can answer only with non-capturing moves.  Both colours.
+pub fn capture_check_reply_family(stride: usize) -> Vec<Position> {
+    use refchess::Pc;
+    let mut raw = vec![];
+    let mut i = 0usize;
+    for (wk, wp) in [(7u8, 15u8), (0u8, 8u8)] {
+        for bq in 0..8u8 {
+            for wr in 0..64u8 {
+                for br in 0..64u8 {
+                    for bk in [62u8, 57, 46, 41] {
+                        i += 1;
+                        if i % stride != 0 {
+                            continue;
+                        }
+                        let mut p = Position::empty();
+                        p.turn = Col::W;
+                        p.full = 1;
+                        let men = [(wk, Col::W, Pc::K), (wp, Col::W, Pc::P), (bq, Col::B, Pc::Q), (wr, Col::W, Pc::R), (br, Col::B, Pc::R), (bk, Col::B, Pc::K)];
+                        let mut ok = true;
+                        for (s, c, pc) in men {
+                            if p.board[s as usize].is_some() {
+                                ok = false;
+                                break;
+                            }
+                            p.board[s as usize] = Some((c, pc));
+                        }
+                        if ok {
+                            raw.push(p);
+                        }
+                    }
+                }
+            }
+        }
+    }
+    raw.into_par_iter()
+        .filter(|p| {
+            if p.valid_root().is_err() {
+                return false;
+            }
+            let l = p.legal_moves();
+            !l.is_empty()
+                && l.len() <= 2
+                && l.iter().all(|m| {
+                    p.at(m.to).is_some() && {
+                        let c = p.make(*m);
+                        c.legal_moves().iter().any(|r| {
+                            c.at(r.to).is_some() && {
+                                let cc = c.make(*r);
+                                let ll = cc.legal_moves();
+                                cc.in_check() && !ll.is_empty() && ll.iter().all(|x| cc.at(x.to).is_none())
+                            }
+                        })
+                    }
+                })
+        })
+        .flat_map_iter(|p| {
+            let m = p.mirror();
+            [p, m]
+        })
+        .filter(|p| p.valid_root().is_ok())
+        .collect()
 }
 
 pub fn run_c11(args: &Args) -> i32 {
@@ -417,7 +487,7 @@ pub fn run_c11(args: &Args) -> i32 {
         json!({
             "evaluations": runs,
             "distinct_nontrivial": with_pass,
-            "rule": "positions = reference BFS to depth 2 from the start (depth 1-2 from three other quiet roots), every catalogue root, every 500th (thorough: 32nd) kings+1-piece position in both colours, degenerate roots; for each position every expiry index k = 0, 1, 2, ... of a counting timeout until three deepening passes completed, the search ended by itself (mate), or the cap; each (position, k) is one complete search on a fresh Engine; seven roots reached by shuffles are searched with the positions played recorded in the repetition table (root occurring up to three times, successors up to twice), every k until four passes completed or the cap. Non-trivial = positions where some k lets a pass complete (so 'a pass completed => a move is returned' is exercised); the others only exercise 'no move or a legal move'.",
+            "rule": "positions = reference BFS to depth 2 from the start (depth 1-2 from three other quiet roots), every catalogue root, every 500th (thorough: 32nd) kings+1-piece position in both colours, degenerate roots, roots whose every move is a capture answered by a capture-with-check that only quiet moves can meet (boxed king, rook, enemy queen and rook; selected by the reference); for each position every expiry index k = 0, 1, 2, ... of a counting timeout until three deepening passes completed, the search ended by itself (mate), or the cap; each (position, k) is one complete search on a fresh Engine; seven roots reached by shuffles are searched with the positions played recorded in the repetition table (root occurring up to three times, successors up to twice), every k until four passes completed or the cap. Non-trivial = positions where some k lets a pass complete (so 'a pass completed => a move is returned' is exercised); the others only exercise 'no move or a legal move'.",
             "positions": positions.len(),
             "positions_where_a_pass_completed": with_pass,
             "positions_where_no_pass_completed_below_cap": no_pass,
@@ -1194,9 +1264,149 @@ fn castling_mate_family(stride: usize) -> Vec<Position> {
         .collect()
 }
 
+/// A two-square pawn advance is a mating move: white king anywhere on ranks 1-6, a white queen or
+/// rook anywhere, a white pawn on its origin square, black king on the 4th or 5th rank; and: the
+/// capture-promotion of a pinner by a pinned pawn is a mating move (`PromoPin` members plus one
+/// white rook on the first rank).  Selected by the reference; both colours.
+fn pawn_special_mate_family(stride: usize) -> Vec<Position> {
+    use refchess::Pc;
+    let mut raw = vec![];
+    let mut i = 0usize;
+    for pf in 0..8u8 {
+        let ps = 8 + pf;
+        for bk in 24..40u8 {
+            for officer in [Pc::Q, Pc::R] {
+                for os in 0..64u8 {
+                    for wk in 0..48u8 {
+                        i += 1;
+                        if i % stride != 0 {
+                            continue;
+                        }
+                        let mut p = Position::empty();
+                        p.turn = Col::W;
+                        p.full = 1;
+                        let men = [(ps, Col::W, Pc::P), (bk, Col::B, Pc::K), (os, Col::W, officer), (wk, Col::W, Pc::K)];
+                        let mut ok = true;
+                        for (s, c, pc) in men {
+                            if p.board[s as usize].is_some() {
+                                ok = false;
+                                break;
+                            }
+                            p.board[s as usize] = Some((c, pc));
+                        }
+                        if ok {
+                            raw.push(p);
+                        }
+                    }
+                }
+            }
+        }
+    }
+    let mut out: Vec<Position> = raw
+        .into_par_iter()
+        .filter(|p| p.valid_root().is_ok() && p.mating_moves().iter().any(|m| p.at(m.from).map(|x| x.1) == Some(Pc::P) && m.to == m.from + 16))
+        .collect();
+    let pins: Vec<Position> = family_positions(Family::PromoPin, 0)
+        .into_par_iter()
+        .flat_map_iter(|p| {
+            (0..8u8).filter_map(move |rs| {
+                let mut q = p.clone();
+                if q.board[rs as usize].is_some() {
+                    return None;
+                }
+                q.board[rs as usize] = Some((Col::W, Pc::R));
+                Some(q)
+            })
+        })
+        .filter(|p| p.valid_root().is_ok() && p.mating_moves().iter().any(|m| m.promo.is_some() && p.at(m.to).is_some()))
+        .collect();
+    eprintln!("[C12] double-push mates: {}, pinned capture-promotion mates: {}", out.len(), pins.len());
+    out.extend(pins.into_iter().step_by(stride.max(1)));
+    out.into_iter()
+        .flat_map(|p| {
+            let m = p.mirror();
+            [p, m]
+        })
+        .filter(|p| p.valid_root().is_ok())
+        .collect()
+}
+
+/// A quiet mate in one competes with a capture that starts a captures-only exchange ending in mate
+/// (which the engine meets first, in its captures-first phase): black king h8 boxed by pawns g7 h7,
+/// black rooks on the back rank (one on the battery file, one elsewhere), white queen in front of a
+/// white rook on that file, a white knight or bishop anywhere.  Kept when the reference finds a
+/// non-capturing mating move and the queen's capture of the rook is legal and does not mate.
+fn exchange_versus_quiet_mate_family() -> Vec<Position> {
+    use refchess::Pc;
+    let mut raw = vec![];
+    for file in 0..6u8 {
+        for other in 0..8u8 {
+            if other == file || other == 7 {
+                continue;
+            }
+            for (qr, rr) in [(1u8, 0u8), (2, 0), (2, 1), (3, 0)] {
+                for extra in [Pc::N, Pc::B] {
+                    for x in 0..64u8 {
+                        let mut p = Position::empty();
+                        p.turn = Col::W;
+                        p.full = 1;
+                        let men = [
+                            (63u8, Col::B, Pc::K),
+                            (54, Col::B, Pc::P),
+                            (55, Col::B, Pc::P),
+                            (56 + file, Col::B, Pc::R),
+                            (56 + other, Col::B, Pc::R),
+                            (qr * 8 + file, Col::W, Pc::Q),
+                            (rr * 8 + file, Col::W, Pc::R),
+                            (6, Col::W, Pc::K),
+                            (x, Col::W, extra),
+                        ];
+                        let mut ok = true;
+                        for (s, c, pc) in men {
+                            if p.board[s as usize].is_some() {
+                                ok = false;
+                                break;
+                            }
+                            p.board[s as usize] = Some((c, pc));
+                        }
+                        if ok {
+                            raw.push((p, qr * 8 + file, 56 + file));
+                        }
+                    }
+                }
+            }
+        }
+    }
+    raw.into_par_iter()
+        .filter(|(p, q, r)| {
+            if p.valid_root().is_err() {
+                return false;
+            }
+            let mates = p.mating_moves();
+            let cap = Mv::new(*q, *r, None);
+            mates.iter().any(|m| p.at(m.to).is_none()) && !mates.contains(&cap) && p.legal_moves().contains(&cap)
+        })
+        .flat_map_iter(|(p, _, _)| {
+            let m = p.mirror();
+            [p, m]
+        })
+        .filter(|p| p.valid_root().is_ok())
+        .collect()
+}
+
 pub fn c12_positions(tier: Tier) -> Vec<Position> {
     use refchess::Pc;
     let mut v = vec![];
+    {
+        let c = exchange_versus_quiet_mate_family();
+        eprintln!("[C12] exchange-versus-quiet-mate family: {} positions", c.len());
+        v.extend(c);
+    }
+    {
+        let c = pawn_special_mate_family(tier.pick(1, 1));
+        eprintln!("[C12] double-push / pinned-capture-promotion mate family: {} positions", c.len());
+        v.extend(c);
+    }
     {
         let c = castling_mate_family(tier.pick(3, 1));
         eprintln!("[C12] castling-mate family: {} positions", c.len());
@@ -1295,8 +1505,8 @@ pub fn run_c12(args: &Args) -> i32 {
         }
     }
     // later expiry points (several completed passes) on every `deep_stride`-th position
-    let deep_stride = args.tier.pick(149usize, 8);
-    let ks: &[u64] = if args.tier == Tier::Quick { &[1_500, 12_000] } else { &[1_500, 12_000, 100_000] };
+    let deep_stride = args.tier.pick(149usize, 31);
+    let ks: &[u64] = if args.tier == Tier::Quick { &[1_500, 12_000] } else { &[1_500, 12_000, 40_000] };
     let deep: Vec<&Position> = positions.iter().step_by(deep_stride).collect();
     let res: Vec<(u64, Vec<Divergence>)> = deep.par_iter().map(|p| c12_deeper(p, false, ks)).collect();
     let mut deeper_searches = 0u64;
@@ -1313,7 +1523,7 @@ pub fn run_c12(args: &Args) -> i32 {
         json!({
             "evaluations": runs,
             "distinct_nontrivial": with_mate,
-            "rule": "all KQ-K, KR-K and KP(7th rank)-K positions with either side to move, every 16th (thorough: every 2nd) K+Q v K + black N/R position and all K+P(7th) v K + capturable piece beside the promotion square positions (mates that compete with captures, which the engine iterates first under a mask), the capture-mates that leave only kings and minor pieces (black king in a corner region, blocker, white minor, victim; every 5th quick) the promotion-only mates (pawn on the 7th, two black men beside the black king; every 3rd quick) and the knight-under-promotion mates where the queen promotion to the same square does not mate (one white helper piece anywhere; every 4th quick) selected by the reference, the en-passant edge cases (a double push gives check and en passant is the only defence; an en-passant capture mates) selected from the en-passant families, positions in which castling is a mating move (king e1, rook with its right, queen and optionally a second officer anywhere, black king anywhere; every 3rd quick; selected by the reference), every scenario root and 22 hand-built mates (three of them: in check with a single legal move that mates) (several mating moves, under-promotion mate, en-passant mate, discovered mate, Black mating), each in both colours and with positional evaluation off and on; each is searched with the smallest k = 32*2^i that lets the first deepening pass complete; every 149th (thorough: 8th) position is also searched at the later expiry points k = 1500, 12000 (thorough: and 100000), where several passes have completed, with the same two implications. Non-trivial = (position, configuration) pairs that have a mate in one AND completed a pass; the rest exercise 'a mate-in-one score is reported only when the move mates'.",
+            "rule": "all KQ-K, KR-K and KP(7th rank)-K positions with either side to move, every 16th (thorough: every 2nd) K+Q v K + black N/R position and all K+P(7th) v K + capturable piece beside the promotion square positions (mates that compete with captures, which the engine iterates first under a mask), the capture-mates that leave only kings and minor pieces (black king in a corner region, blocker, white minor, victim; every 5th quick) the promotion-only mates (pawn on the 7th, two black men beside the black king; every 3rd quick) and the knight-under-promotion mates where the queen promotion to the same square does not mate (one white helper piece anywhere; every 4th quick) selected by the reference, the en-passant edge cases (a double push gives check and en passant is the only defence; an en-passant capture mates) selected from the en-passant families, back-rank positions in which a quiet mate in one competes with a queen-takes-rook exchange that also ends in mate (boxed king, two back-rank rooks, queen + rook battery, a minor piece anywhere; selected by the reference), positions in which a two-square pawn advance mates (pawn on its origin square, queen or rook and both kings anywhere) or the capture-promotion of its pinner by a pinned pawn mates, positions in which castling is a mating move (king e1, rook with its right, queen and optionally a second officer anywhere, black king anywhere; every 3rd quick; selected by the reference), every scenario root and 22 hand-built mates (three of them: in check with a single legal move that mates) (several mating moves, under-promotion mate, en-passant mate, discovered mate, Black mating), each in both colours and with positional evaluation off and on; each is searched with the smallest k = 32*2^i that lets the first deepening pass complete; every 149th (thorough: 31st) position is also searched at the later expiry points k = 1500, 12000 (thorough: and 40000), where several passes have completed, with the same two implications. Non-trivial = (position, configuration) pairs that have a mate in one AND completed a pass; the rest exercise 'a mate-in-one score is reported only when the move mates'.",
             "positions": positions.len(),
             "searches_that_completed_a_pass": completed,
             "searches_at_later_expiry_points": deeper_searches,
@@ -1469,7 +1679,7 @@ fn material_threshold_family(band: i32, per_signature: usize) -> Vec<Position> {
                                         p.turn = turn;
                                         p.full = 1;
                                         let mut ok = true;
-                                        let mut put = |p: &mut Position, c: Col, pc: Pc, next: &mut dyn FnMut(u64) -> u64| -> bool {
+                                        let put = |p: &mut Position, c: Col, pc: Pc, next: &mut dyn FnMut(u64) -> u64| -> bool {
                                             for _ in 0..64 {
                                                 let sq = if pc == Pc::P {
                                                     // own ranks 2..6: no promotion next move
